@@ -1354,7 +1354,27 @@ fn run_case(case: &Case, model: &mut Model, log_events: bool) -> Outcome {
     for w in pol.worker_weights.iter_mut() {
         *w = (*w).min(if case.quantum.map(|q| q <= 3).unwrap_or(false) { 3 } else { 8 });
     }
-    let max_steps = 200_000;
+    // step budget: scaled with the amount of counting-down the scenario does per time slice (a slow filter is
+    // re-run on every message and after every abandonment; at quantum 1 every instruction is a worker step).
+    // Running out of budget is INCONCLUSIVE (counter `inconclusive:step-budget-exhausted`), never a hang: a hang
+    // is only declared when the system is settled (idle and no timeout within reach).
+    let n_msgs = sc.n_sends() as u64 + 2;
+    let mut work: u64 = sc.p_delay as u64;
+    for s in &sc.sources {
+        if let Src::Recv { filter: Some(f), .. } = s {
+            work += f.slow as u64 * n_msgs * 2;
+        }
+    }
+    for a in &sc.script {
+        work += a.spin as u64;
+    }
+    for h in &sc.helpers {
+        if let Trigger::Countdown(k) = h.trigger {
+            work += k as u64;
+        }
+    }
+    let q = case.quantum.unwrap_or(1000).clamp(1, 50) as u64;
+    let max_steps = (200_000 + work * 12 * 40 / q).min(4_000_000) as usize;
     let mut result = None;
     let mut steps = 0;
     // every REPL line is a separate program update; the next one is submitted when the previous has a result
